@@ -23,6 +23,10 @@ class Skip(Exception):
     """No generator for this type."""
 
 
+ALL_CONSTS = {"@context", "@type"}  # names of constant fields of all classes seen (ignored on input, never "provided values")
+SUBCLASSES = {}  # generated class -> list of generated subclasses (inheritance chains at nested positions)
+
+
 class Color(str, enum.Enum):
     red = "red"
     green = "green"
@@ -89,6 +93,14 @@ def gen_value(hint, rng, depth=0):
     if issubclass(hint, bool):
         return rng.choice([True, False])
     if issubclass(hint, BaseModel):
+        subs = SUBCLASSES.get(hint)
+        if subs and rng.random() < 0.45:
+            # an OBJECT of a subclass at a position typed with the parent class (kept as that subclass by pydantic)
+            sub = rng.choice(subs)
+            try:
+                return sub.parse_obj(gen_model_dict(sub, rng, depth + 1))
+            except Exception:
+                pass
         return gen_model_dict(hint, rng, depth + 1)
     if issubclass(hint, Duration):
         return rng.choice(DURS)
@@ -179,32 +191,38 @@ def gen_hint(rng, nested_pool, depth=0):
     return atom
 
 
-def gen_class(rng, nested_pool=(), base=None, tag="G"):
+def gen_class(rng, nested_pool=(), base=None, tag="G", simple=False):
     """Create a MetadataSchema subclass from the grammar. Returns the class."""
     _ctr[0] += 1
     name = f"{tag}{_ctr[0]}"
     ann, ns = {}, {}
-    base = base or (LDSchema if rng.random() < 0.15 else MetadataSchema)
+    base = base or (LDSchema if rng.random() < 0.15 and not simple else MetadataSchema)
     inherited = set(base.__fields__) if base not in (MetadataSchema, LDSchema) else set()
     for i in range(rng.randint(1, 6)):
         fname = f"f{_ctr[0]}_{i}"
         hint = gen_hint(rng, list(nested_pool))
-        if rng.random() < 0.1:
+        if rng.random() < 0.1 and not simple:
             hint = Annotated[hint, Field(alias=f"@{fname}")]
         elif rng.random() < 0.1 and get_origin(hint) is Union and type(None) in get_args(hint):
             pass
         ann[fname] = hint
-    if rng.random() < 0.12:  # self-recursive optional field
+    if rng.random() < 0.12 and not simple:  # self-recursive optional field
         ann["rec"] = Optional[name]
     ns["__annotations__"] = ann
     ns["__module__"] = __name__
     cls = type(MetadataSchema)(name, (base,), ns)
     globals()[name] = cls
+    if simple and base not in (MetadataSchema, LDSchema):  # only the dedicated chain families put subclass objects at parent positions
+        for b in base.__mro__:
+            if b in (MetadataSchema, LDSchema):
+                break
+            SUBCLASSES.setdefault(b, []).append(cls)
     if "rec" in ann:
         cls.update_forward_refs(**{name: cls})
-    if rng.random() < 0.25:
+    if rng.random() < 0.25 and not simple:
         consts = {f"c{_ctr[0]}": rng.choice([1, "const", [1, 2], {"k": "v"}, True])}
         cls = add_const_fields(consts)(cls)
+        ALL_CONSTS.update(consts)
     if rng.random() < 0.15 and issubclass(cls, LDSchema):
         cls = ld(context="https://example.org/ctx", type=name)(cls)
     if inherited and rng.random() < 0.3:
@@ -228,6 +246,34 @@ def gen_family(rng, n=4, tag="G"):
         else:
             pool.append(gen_class(rng, pool[:3], tag=tag))
     return pool
+
+
+def gen_chain_family(rng, tag="H"):
+    """A (base), B(A), optionally C(B), and a holder class with single-valued and list positions typed A."""
+    # flat classes without aliases/constants/recursion: a cross-class cast goes through dict(), which would re-key aliased
+    # fields and turn nested models of the subclass into raw extra values of the parent partial (representation noise)
+    A = gen_class(rng, (), tag=tag, simple=True)
+    B = gen_class(rng, (), base=A, tag=tag, simple=True)
+    fam = [A, B]
+    if rng.random() < 0.4:
+        fam.append(gen_class(rng, (), base=B, tag=tag, simple=True))
+    _ctr[0] += 1
+    name = f"{tag}{_ctr[0]}"
+    ann = {"n": Optional[A], "m": A if rng.random() < 0.5 else Optional[B], "l": List[A], "k": Optional[Int]}
+    H = type(MetadataSchema)(name, (MetadataSchema,), {"__annotations__": ann, "__module__": __name__})
+    globals()[name] = H
+    return fam + [H]
+
+
+def jsonable(v):
+    """Replace model objects inside candidate inputs by their JSON dicts."""
+    if isinstance(v, BaseModel):
+        return v.json_dict() if hasattr(v, "json_dict") else __import__("json").loads(v.json())
+    if isinstance(v, dict):
+        return {k: jsonable(x) for k, x in v.items()}
+    if isinstance(v, (list, tuple)):
+        return [jsonable(x) for x in v]
+    return v
 
 
 def instances(cls, rng, n, stats=None):
